@@ -239,7 +239,8 @@ def gen_cov(tier, seed):
 def ev_cov(case, rec):
     t = catalogue()[case['trans']]
     pt = [-4052051.7643, 4212836.2017, -2545106.0245]
-    mats = [np.diag([1e-4, 4e-4, 9e-4]), np.array([[2e-4, 1e-4, 0.0], [1e-4, 2e-4, 5e-5], [0.0, 5e-5, 1e-4]]), np.zeros((3, 3))]
+    mats = [np.diag([1e-4, 4e-4, 9e-4]), np.array([[2e-4, 1e-4, 0.0], [1e-4, 2e-4, 5e-5], [0.0, 5e-5, 1e-4]]), np.zeros((3, 3)),
+            np.asfortranarray(np.array([[3e-4, 1e-4, 2e-5], [1e-4, 2e-4, 5e-5], [2e-5, 5e-5, 1e-4]]))]
     sd0 = {k: om.dec_str(getattr(t.tf_sd, k)) for k in SD_FIELDS}
     sdd = {k: om.dec_str(getattr(t.tf_sd, k.replace('sd_', 'sd_d_'))) for k in SD_FIELDS}
     for es in case['epochs']:
@@ -251,8 +252,12 @@ def ev_cov(case, rec):
         for mi, m in enumerate(mats):
             prev = None
             for rep in range(3):
+                mb = m.tobytes()
                 st, r = rec.call(conform14, pt[0], pt[1], pt[2], e, t, m)
                 co = {'trans': case['trans'], 'epoch': es, 'repeat': rep}
+                if m.tobytes() != mb:
+                    rec.fail('conform14 modified the covariance array supplied by the caller', site='transform:conform14:vcv-argument',
+                             observed=m, case=one, coords=co)
                 if st != 'ok':
                     rec.fail('conform14 raised when a covariance was supplied', site='transform:conform14:vcv', observed=r,
                              case=one, coords=co)
